@@ -3780,6 +3780,11 @@ class Network(Cached):
             # FIXME: check why there was a problem with ==1
             if len(comp) < 2:
                 nsi_newman_betweenness[comp[0]] = 0
+                #  an isolated node equals a component of its own twins:
+                #  (2 * W - k) * k with W = k = w
+                if add_local_ends:
+                    nsi_newman_betweenness[comp[0]] = \
+                        self.node_weights[comp[0]] ** 2
             #  For larger components, continue with the calculation
             else:
                 #  Get the subgraph corresponding to component i
